@@ -88,6 +88,19 @@ def load_ref(ref):
                 conf.SetAtomPosition(i, Point3D(1.3 * i, 0.37 * (i % 3), 0.11 * (i % 2)))
             mol.AddConformer(conf, assignId=True)
         mol.SetProp("_Name", "smi")
+    if ref.get("scales"):
+        # extra conformers of the SAME molecule object: scaled copies of its first conformers.  Their shells fill at
+        # different iterations, so runs on them stop at different levels - what a history check needs.
+        base = mol
+        mol = Chem.Mol(base)
+        mol.RemoveAllConformers()
+        for j in range(min(3, base.GetNumConformers())):
+            for sc in ref["scales"]:
+                c = Chem.Conformer(base.GetConformer(j))
+                for i in range(c.GetNumAtoms()):
+                    p = c.GetAtomPosition(i)
+                    c.SetAtomPosition(i, Point3D(p.x * sc, p.y * sc, p.z * sc))
+                mol.AddConformer(c, assignId=True)
     _cache[key] = mol
     return mol
 
